@@ -20,6 +20,7 @@ import z3
 
 from pyvc.values import SV, CV, XV, PV, B, I, R, EngineError, to_z, real, Opaque
 from pyvc.containers import PDict
+from pyvc.arrays import Mat, Space
 from pyvc.interp import Native, ObjVal, PyRaise
 from pyvc import netmodel
 from contracts import ppcmodel as pm
@@ -28,7 +29,7 @@ PROP = "C12"
 MIN_OBLIGATIONS = 30
 PF = "pandapower.powerflow"
 CC = "pandapower.control.controller.const_control"
-NOT_DECIDED = ["not decided: the batch result reading of the output writer (read_batch_results / _check_output_writer_recyclability), "
+NOT_DECIDED = ["bounded native stand-in only: the batch result reading of the output writer (read_batch_results / _check_output_writer_recyclability), "
                "only_v_results shortcuts, other controllers' recycle declarations, the solver",
                "not decided: that the parameter functions re-read every column (their own contracts: C02 line build)"]
 
@@ -101,9 +102,23 @@ def run(vc):
                     return ret(*a) if callable(ret) else ret
                 return Native(f, name=name, pure=False)
             for nm in ("_calc_pq_elements_and_add_on_ppc", "_calc_trafo_parameter", "_calc_trafo3w_parameter", "_calc_line_parameter", "_build_gen_ppc",
-                       "_ppci_to_net", "_ppci_bus_to_ppc", "_ppci_other_to_ppc"):
+                       "_ppci_to_net", "_ppci_bus_to_ppc", "_ppci_other_to_ppc", "_switch_branches"):
                 if me.has(nm):
                     me.vals[nm] = ev(nm)
+            # the parameter functions write the buses of the element tables to the branch rows again (their own contract, C02): after
+            # them the end buses are those of the tables, not the ones _pd2ppc determined (auxiliary buses at open switches)
+            from pandapower.pypower.idx_brch import F_BUS, T_BUS
+            branch = Mat("ppcbranch", {"all": Space.get("ppcbranch")})
+            ends0 = {c: pm.colfun(branch, "all", c, I) for c in (F_BUS, T_BUS)}
+
+            def rewrites(name):
+                def f(it, n, ppc_, *a, **k):
+                    events.append(name)
+                    for c in (F_BUS, T_BUS):
+                        branch.cols[("all", c)] = SV(z3.Function(f"table_bus[{name},{c}]", I, I)(branch.segments["all"].i))
+                return Native(f, name=name, pure=False)
+            for nm in ("_calc_trafo_parameter", "_calc_trafo3w_parameter", "_calc_line_parameter"):
+                me.vals[nm] = rewrites(nm)
             me.vals["_ppc2ppci"] = ev("_ppc2ppci", lambda ppc, net, ppci=None: PDict({"success": True, "iterations": 1, "et": 0.}))
             me.vals["_run_newton_raphson_pf"] = ev("solver", lambda ppci, options: ppci)
             me.vals["_run_dc_pf"] = ev("solver", lambda ppci, recycle=None: ppci)
@@ -115,9 +130,10 @@ def run(vc):
             fl = {k: z3.Bool(f"recycle[{k}]") for k in ("bus_pq", "trafo", "gen")}
             recycle = PDict({k: SV(v) for k, v in fl.items()})
             internal = PDict({"bus": Opaque("bus"), "gen": Opaque("gen"), "branch": Opaque("branch"), "baseMVA": 1.0})
-            ppc = PDict({"internal": internal, "gen": Opaque("ppc.gen")})
+            ppc = PDict({"internal": internal, "gen": Opaque("ppc.gen"), "branch": branch})
             net = netmodel.Net({"_options": PDict({"algorithm": "nr", "ac": ac, "only_v_results": False, "mode": "pf"}), "_ppc": ppc,
                                 "_pd2ppc_lookups": PDict({"branch": lookup})}, strict=True)
+            net.fields.raw("_options").set("neglect_open_switch_branches", SV(z3.Bool("neglect_open_switch_branches")))
             out = p.call(f"{PF}:_recycled_powerflow", net, recycle=recycle)
             if out.raised:
                 raise EngineError(f"_recycled_powerflow raised {out.exc!r}")
@@ -133,12 +149,18 @@ def run(vc):
             called_when(fl["gen"], "_build_gen_ppc", "gen-refreshed")
             for t, fn in BRANCH_TABLES.items():
                 called_when(z3.And(fl["trafo"], has[t]), fn, f"branch-refreshed[{t} in lookup]")
+            for c, nm in ((F_BUS, "from"), (T_BUS, "to")):
+                now = branch.cols.get(("all", c))
+                p.prove(f"{tag}:branch-{nm}-buses-kept", now is not None and to_z(now, I) == to_z(ends0[c], I), meta=dict(part="recycled-ends"),
+                        note="the end buses of the branches (auxiliary buses at open switches and out-of-service buses, determined by the full "
+                             "conversion) are the same after the parameters have been re-read")
             p.prove(f"{tag}:solver-runs-on-rebuilt-ppci", "solver" in events and "_ppc2ppci" in events and events.index("_ppc2ppci") < events.index("solver"),
                     meta=dict(part="recycled"))
         vc.explore(f"_recycled_powerflow[{'ac' if ac else 'dc'}]", h_rec, max_paths=400)
 
 
     run_evaluate_net(vc)
+    _standins(vc)
 
     # ---- batch read eligibility against what the batch reader can derive -----------------------------------------------------
     RES_COLS = {"res_bus": ["vm_pu", "va_degree", "p_mw", "q_mvar"],
@@ -246,6 +268,20 @@ class _ContainsNet:
         return key == "output_writer"
 
 
+def _standins(vc):
+    if not hasattr(vc, "native_standins"):
+        vc.native_standins = []
+    vc.native_standins.append(dict(
+        name="run_timeseries against fresh power flows of every step on fixed networks",
+        bound="ConstControl profiles (3-5 steps) on trafo3w/trafo tap_pos, line length, load p, gen vm in a 5-bus network; a diverging "
+              "step; several logged variables of one result table (batch reading); open transformer / line switches together with "
+              "tap_pos / line length profiles (with and without neglect_open_switch_branches); a net that carries the ppc of an earlier "
+              "power flow with another switching state",
+        script="import sys\nfrom replaylib.timeseries_fresh import main, main_divergence, main_more\n"
+               "for f in (main, main_divergence, main_more):\n    try:\n        f()\n    except SystemExit as e:\n        if e.code:\n            raise\n",
+        timeout=1500))
+
+
 def classify(ob, model):
     return ob.meta.get("part", "recycle") + ":" + str(ob.meta.get("fn", ob.meta.get("element", "")))
 
@@ -255,6 +291,9 @@ def replay(ob, model, finding=None):
         return {"script": f"# replay of {ob.id}\nfrom replaylib.timeseries_fresh import main_divergence\nmain_divergence()\n",
                 "description": "run_timeseries(continue_on_divergence=True) with one time step without a power flow solution: the steps after it "
                                "against fresh power flows"}
+    if ob.meta.get("part") == "recycled-ends":
+        return {"script": f"# replay of {ob.id}\nfrom replaylib.timeseries_fresh import main_more\nmain_more()\n",
+                "description": "tap_pos / line length profiles in a net with open transformer and line switches against fresh power flows"}
     return {"script": f"# replay of {ob.id}\nfrom replaylib.timeseries_fresh import main\nmain()\n",
             "description": "run_timeseries with ConstControl on load / gen / trafo / trafo3w / line columns (with and without 2W transformers in the "
                            "net) against fresh power flows of every step"}
